@@ -158,8 +158,17 @@ def place_end(s):
 
 
 def strip_generics(p):
-    m = re.match(r'^(.*?)::<impl [^<>]*(?:<[^<>]*>[^<>]*)*>$', p)
-    if m and '::<impl ' not in m.group(1): p = m.group(1)
+    if p.endswith('>') and not p.endswith('->'):
+        # a trailing "::<impl Fn(u8) -> bool>" is a generic ARGUMENT list (an impl block is always followed by ::item)
+        depth = 0; i = len(p) - 1
+        while i >= 0:
+            c = p[i]
+            if c == '>' and p[i - 1:i] != '-': depth += 1
+            elif c == '<':
+                depth -= 1
+                if depth == 0: break
+            i -= 1
+        if i >= 2 and p[i - 2:i] == '::' and p[i:].startswith('<impl '): p = p[:i - 2]
     out = []; depth = 0; i = 0; n = len(p)
     while i < n:
         if depth == 0 and p.startswith('::<', i) and not p.startswith('::<impl ', i):
